@@ -93,13 +93,13 @@ N("c08-n-if-chain","C08",S,"\tswitch {\n\tcase id == nil && curElecID == nil:\n\
 M("c09-two-fields-accepted","C09",S,"(in.Params != nil && in.Operation != nil), (in.ElectionId != nil && in.Operation != nil):","(in.Params != nil && in.Operation != nil):","TABLE-DISPATCH")
 M("c09-first-message-flag","C09",S,"\t\t\tgotmsg = true","\t\t\tgotmsg = gotmsg || in.Params == nil","TABLE-DISPATCH")
 M("c09-election-error-not-fatal","C09",S,"\t\t\t\tif err != nil {\n\t\t\t\t\terrCh <- err\n\t\t\t\t\treturn\n\t\t\t\t}\n\t\t\tcase in.Operation != nil:","\t\t\t\tif err != nil {\n\t\t\t\t\terrCh <- err\n\t\t\t\t}\n\t\t\tcase in.Operation != nil:","TABLE-DISPATCH")
-M("c09-delete-persistence-accepted","C09",S,"\tif p.Persistence == spb.SessionParameters_DELETE {","\tif p.Persistence == spb.SessionParameters_DELETE && false {","TABLE-CHECK-PARAMS")
+M("c09-delete-persistence-accepted","C09",S,"\tif p.Persistence != spb.SessionParameters_PRESERVE {","\tif p.Persistence != spb.SessionParameters_PRESERVE && false {","TABLE-CHECK-PARAMS")
 M("c09-own-session-compared","C09",S,"\t\tif id == cid {\n\t\t\tcontinue\n\t\t}\n","","PARAMS-CONSISTENT")
 M("c09-equal-skips-fiback","C09",S,"cp.Persist == n.Persist && cp.FIBAck == n.FIBAck && cp.ExpectElecID == n.ExpectElecID","cp.Persist == n.Persist && cp.ExpectElecID == n.ExpectElecID","PARAMS-FIELDS")
 M("c09-session-leaks","C09",S,"\t// when this client goes away, we need to clean up its state.\n\ts.deleteClient(cid)","","SESSION-FOOTPRINT")
 M("c09-persist-not-required","C09",S,"\tcase cs.params == nil || !cs.params.ExpectElecID || !cs.params.Persist:","\tcase cs.params == nil || !cs.params.ExpectElecID:","TABLE-MODIFY-PRECONDITION")
 M("c09-params-settable-twice","C09",S,"\ts.cs[id].setParams = true\n","","TABLE-UPDATE-PARAMS")
-N("c09-n-swap-independent-checks","C09",S,"\tif p.Redundancy == spb.SessionParameters_ALL_PRIMARY {\n\t\treturn nil, addModifyErrDetailsOrReturn(status.Newf(codes.Unimplemented, \"ALL_PRIMARY redundancy are not supported\"), &spb.ModifyRPCErrorDetails{\n\t\t\tReason: spb.ModifyRPCErrorDetails_UNSUPPORTED_PARAMS,\n\t\t})\n\t}\n\n\t// The fake server does not (currently) support delete, so we just return an error\n\t// if the client is asking for anything other than persisting the entries.\n\tif p.Persistence == spb.SessionParameters_DELETE {\n\t\treturn nil, addModifyErrDetailsOrReturn(status.Newf(codes.Unimplemented, \"persistence modes other than PRESERVE are not supported\"), &spb.ModifyRPCErrorDetails{\n\t\t\tReason: spb.ModifyRPCErrorDetails_UNSUPPORTED_PARAMS,\n\t\t})\n\t}","\tif p.Persistence == spb.SessionParameters_DELETE {\n\t\treturn nil, addModifyErrDetailsOrReturn(status.Newf(codes.Unimplemented, \"persistence modes other than PRESERVE are not supported\"), &spb.ModifyRPCErrorDetails{\n\t\t\tReason: spb.ModifyRPCErrorDetails_UNSUPPORTED_PARAMS,\n\t\t})\n\t}\n\n\tif p.Redundancy == spb.SessionParameters_ALL_PRIMARY {\n\t\treturn nil, addModifyErrDetailsOrReturn(status.Newf(codes.Unimplemented, \"ALL_PRIMARY redundancy are not supported\"), &spb.ModifyRPCErrorDetails{\n\t\t\tReason: spb.ModifyRPCErrorDetails_UNSUPPORTED_PARAMS,\n\t\t})\n\t}",note="swap two checks with identical verdicts")
+N("c09-n-swap-independent-checks","C09",S,"\tif p.Redundancy != spb.SessionParameters_SINGLE_PRIMARY {\n\t\treturn nil, addModifyErrDetailsOrReturn(status.Newf(codes.Unimplemented, \"redundancy modes other than SINGLE_PRIMARY are not supported\"), &spb.ModifyRPCErrorDetails{\n\t\t\tReason: spb.ModifyRPCErrorDetails_UNSUPPORTED_PARAMS,\n\t\t})\n\t}\n","\tif spb.SessionParameters_SINGLE_PRIMARY != p.Redundancy {\n\t\treturn nil, addModifyErrDetailsOrReturn(status.Newf(codes.Unimplemented, \"redundancy modes other than SINGLE_PRIMARY are not supported\"), &spb.ModifyRPCErrorDetails{\n\t\t\tReason: spb.ModifyRPCErrorDetails_UNSUPPORTED_PARAMS,\n\t\t})\n\t}\n",note="comparison operands swapped")
 
 # ---------------- C10
 M("c10-stop-nonblocking-send","C10",S,"\tdefer close(stopCh)","\tdefer func() {\n\t\tselect {\n\t\tcase stopCh <- struct{}{}:\n\t\tdefault:\n\t\t}\n\t}()","STOP-SIGNAL")
@@ -238,6 +238,30 @@ M("c09-loop-ignores-domodify-verdict","C09",S,"\t\t\t\tif !s.doModify(cid, in.Op
 M("c01-fatal-op-continues","C01",S,"\t\t\terrCh <- err\n\t\t\treturn false\n","\t\t\terrCh <- err\n","FATAL-ENDS-SESSION")
 M("c06-results-sorted","C06",S,"\treturn &spb.ModifyResponse{\n\t\tResult: results,\n\t}, nil","\tif n := len(results); n > 1 {\n\t\tresults[0], results[n-1] = results[n-1], results[0]\n\t}\n\treturn &spb.ModifyResponse{\n\t\tResult: results,\n\t}, nil","RESULT-MAPPING",note="re-orders the built list")
 M("c06-oks-truncated","C06",S,"\tfor _, ok := range oks {\n\t\tlog.V(2)","\tif len(oks) > 1 {\n\t\toks = oks[:1]\n\t}\n\tfor _, ok := range oks {\n\t\tlog.V(2)","RESULT-MAPPING")
+
+# ---------------- round 5 rules
+M("c02-rib-new-wrong-probe","C02",R,"\tif hasDisableForwardRef(opt) {\n\t\trhOpt = append(rhOpt, DisableForwardReferences())","\tif hasDisableCheckFn(opt) {\n\t\trhOpt = append(rhOpt, DisableForwardReferences())","RIB-WIRING",note="the gate option also forbids forward references; the forward-reference option is ignored")
+M("c02-holder-forwardref-always","C02",R,"\tif hasRHDisableForwardRef(opts) {\n\t\tr.disableForwardRef = true\n\t}","\tr.disableForwardRef = true\n\t_ = hasRHDisableForwardRef(opts)","RIB-WIRING")
+M("c02-inline-probe-wrong-type","C02",R,"\tif hasDisableForwardRef(opt) {\n\t\trhOpt = append(rhOpt, DisableForwardReferences())\n\t\tr.disableForwardReferences = true\n\t}","\tfor _, o := range opt {\n\t\tif _, ok := o.(*disableCheckFn); ok {\n\t\t\trhOpt = append(rhOpt, DisableForwardReferences())\n\t\t\tr.disableForwardReferences = true\n\t\t\tbreak\n\t\t}\n\t}","RIB-WIRING",note="probe written in line, asserting the wrong option type")
+N("c02-n-inline-probe","C02",R,"\tif hasDisableForwardRef(opt) {\n\t\trhOpt = append(rhOpt, DisableForwardReferences())\n\t\tr.disableForwardReferences = true\n\t}","\tfor _, o := range opt {\n\t\tif _, ok := o.(*disableForwardRef); ok {\n\t\t\trhOpt = append(rhOpt, DisableForwardReferences())\n\t\t\tr.disableForwardReferences = true\n\t\t\tbreak\n\t\t}\n\t}",note="probe written in line (folded back into a probe call)")
+M("c10-result-channel-closed","C10",S,"\terr := <-errCh\n\tclose(resultDone)","\terr := <-errCh\n\tclose(resultDone)\n\tclose(resultChan)","CLOSE-BY-SENDER",note="closed by the handler while the receive goroutine may still send")
+M("c12-recover-one-level-down","C12",R,"\tdefer func() {\n\t\tif p := recover(); p != nil {\n\t\t\tnr, err = nil, fmt.Errorf(\"invalid entry provided, cannot be converted, %v\", p)\n\t\t}\n\t}()","\tdefer func() {\n\t\tfunc() {\n\t\t\tif p := recover(); p != nil {\n\t\t\t\tnr, err = nil, fmt.Errorf(\"invalid entry provided, cannot be converted, %v\", p)\n\t\t\t}\n\t\t}()\n\t}()","PANIC-CONTAINMENT",note="recover() called one call level below the deferred function does not stop the panic")
+M("c17-clienterror-fabricated","C17",K,"\tif !ok {\n\t\tt.Fatalf(\"error returned from client was not expected type, got: %T, want: *client.ClientError\", err)\n\t}\n\treturn ce","\tif !ok {\n\t\treturn &client.ClientErr{Recv: []error{err}}\n\t}\n\treturn ce","CLIENT-ERROR-CONVERSION")
+M("c17-mpls-key-narrowed","C17",K,"\t\t\tif _, ok := ni.mpls[v.Mpls.GetLabelUint64()]; !ok {","\t\t\tif _, ok := ni.mpls[uint64(uint32(v.Mpls.GetLabelUint64()))]; !ok {","GET-ENTRIES-LOOKUP")
+M("c14-await-consumes-done","C14",C,"\t\ttime.Sleep(BusyLoopDelay) // avoid busy looping.","\t\tselect {\n\t\tcase <-c.doneCh:\n\t\tcase <-time.After(BusyLoopDelay):\n\t\t}","DONE-SIGNAL")
+M("c19-stop-leaves-stub-session","C19",F,"\t\tg.c.StopSending()\n\t\tif err := g.c.Close(); err != nil {\n\t\t\tlog.Infof(\"cannot disconnect from server, %v\", err)\n\t\t}","\t\tg.c.StopSending()\n\t\tif g.connection != nil && g.connection.stub != nil {\n\t\t\treturn\n\t\t}\n\t\tif err := g.c.Close(); err != nil {\n\t\t\tlog.Infof(\"cannot disconnect from server, %v\", err)\n\t\t}","STOP-CLOSES")
+M("c19-unknown-id-not-an-error","C19",C,"\t\treturn nil, fmt.Errorf(\"could not dequeue operation %d, unknown operation\", op.Id)\n\t}\n\n\t// We know","\t\treturn &OpResult{Timestamp: unixTS(), OperationID: op.GetId(), ClientError: \"unknown operation\"}, nil\n\t}\n\n\t// We know","TABLE-CLEAR-PENDING")
+M("c13-rejected-response-only-logged","C13",C,"\t\tif err := c.handleModifyResponse(in); err != nil {\n\t\t\tlog.Errorf(\"got error processing message received from server, %v\", err)\n\t\t\tc.addReadErr(err)\n\t\t\treturn true\n\t\t}","\t\tif err := c.handleModifyResponse(in); err != nil {\n\t\t\tlog.Errorf(\"got error processing message received from server, %v\", err)\n\t\t}","ERROR-RECORDED")
+M("c03-counter-written-by-new-helper","C03",R,"\tr.doDeleteNH(e.GetIndex())","\tr.doDeleteNH(e.GetIndex())\n\tfunc(i uint64) {\n\t\tr.refCounts.mu.Lock()\n\t\tdefer r.refCounts.mu.Unlock()\n\t\tr.refCounts.NextHop[i] = 0\n\t}(e.GetIndex())","COUNTER-CALLERS",note="a counter entry reset outside the primitives")
+M("c02-results-filtered","C02",S,"\tfor _, ok := range oks {\n\t\tlog.V(2)","\tif len(oks) > 1 {\n\t\toks = oks[:1]\n\t}\n\tfor _, ok := range oks {\n\t\tlog.V(2)","RESULT-MAPPING")
+M("c03-lookup-key-rewritten","C03",R,"\treturn r.r.Afts.Ipv6Entry[prefix]","\treturn r.r.Afts.Ipv6Entry[fmt.Sprintf(\"%s\", prefix)+\"\"]","TABLE-KEY-IDENTITY")
+
+M("c06-handler-does-not-wait-for-writer","C06",S,"\t// A result that was handed to the sender is written before the RPC\n\t// returns - returning ends the stream, and the result would be lost.\n\t<-sendDone\n","","FORWARDER-JOINED",note="revert of fix e19f8ff (the join)")
+M("c11-writer-blocks-on-errch","C11",S,"\t\t\t\t\tselect {\n\t\t\t\t\tcase errCh <- status.Errorf(codes.Internal, \"cannot write message to client channel, %s\", res):\n\t\t\t\t\tcase <-resultDone:\n\t\t\t\t\t}\n","\t\t\t\t\terrCh <- status.Errorf(codes.Internal, \"cannot write message to client channel, %s\", res)\n","FORWARDER-JOINED",note="a joined writer that can block for ever on the error channel")
+M("c11-election-id-overwritten-in-place","C11",S,"\t\ts.curElecID = elecID\n","\t\tif s.curElecID == nil {\n\t\t\ts.curElecID = &spb.Uint128{}\n\t\t}\n\t\ts.curElecID.High, s.curElecID.Low = elecID.GetHigh(), elecID.GetLow()\n","ENTRY-IMMUTABLE")
+M("c11-copyribs-holds-all-read-locks","C11",R,"\t\tniR.mu.RLock()\n\t\t// this is likely expensive on very large RIBs, but with today's implementation\n\t\t// it seems acceptable, since we then allow the caller not to have to figure out\n\t\t// any locking since they have their own RIB to work on.\n\t\tdupRIB, err := ygot.DeepCopy(niR.r)\n\t\tif err != nil {\n\t\t\treturn nil, fmt.Errorf(\"cannot copy RIB for NI %s, %v\", name, err)\n\t\t}\n\t\trib[name] = dupRIB.(*aft.RIB)\n\t\tniR.mu.RUnlock()\n","\t\tniR.mu.RLock()\n\t\tdefer niR.mu.RUnlock()\n\t\tdupRIB, err := ygot.DeepCopy(niR.r)\n\t\tif err != nil {\n\t\t\treturn nil, fmt.Errorf(\"cannot copy RIB for NI %s, %v\", name, err)\n\t\t}\n\t\trib[name] = dupRIB.(*aft.RIB)\n","LOCK-ORDER",note="read locks of all instances accumulated in map order against Flush's sorted write locks")
+M("c16-hook-called-from-reference-bookkeeping","C16",R,"\t\tfor _, nh := range original.NextHop {\n\t\t\tniRIB.decNHRefCount(nh.GetIndex())\n\t\t}\n","\t\tfor _, nh := range original.NextHop {\n\t\t\tniRIB.decNHRefCount(nh.GetIndex())\n\t\t}\n\t\tif niRIB.postChangeHook != nil {\n\t\t\tniRIB.postChangeHook(constants.Delete, unixTS(), niRIB.name, original)\n\t\t}\n","HOOK-CALLERS")
+M("c15-mpls-replace-overlays","C15",R,"\tdelete(r.r.GetAfts().LabelEntry, aft.UnionUint32(label))\n","","REPLACE-TOTAL")
 
 json.dump(V, open('/verif/selftest/variants.json','w'), indent=1)
 print(len(V),'variants;', sum(1 for v in V if v['neutral']),'neutral')
